@@ -325,6 +325,7 @@ fn queue_main(plan: &Value, slot: Arc<Mutex<Option<QueueRun>>>) {
     stream.report_res = Res::from_str(js(plan, "report_res", "O"));
     stream.flush_fail = ja(plan, "flush_fail").iter().filter_map(|x| x.as_u64()).collect();
     stream.flush_fail_from = plan.get("flush_fail_from").and_then(|x| x.as_u64());
+    stream.fail_all = plan.get("fail_all").and_then(|x| x.as_str()).map(Res::from_str);
     stream.install_subscriber_at = plan.get("writer_subscriber_at").and_then(|x| x.as_u64());
     for s in ja(plan, "script") {
         if let Some(a) = s.as_array() {
@@ -1351,6 +1352,10 @@ pub fn check_c04(plan: &Value, run: &QueueRun, d: &Digest) -> Option<Violation> 
                         ),
                     ));
                 }
+                None if d.drop_begin.map(|b| ret > b).unwrap_or(false) => {
+                    // the append had not returned when the shutdown began: it may legitimately
+                    // have been discarded (C05)
+                }
                 None => {
                     // never delivered in the whole run: only legitimate as an overflow loss, i.e.
                     // at least `capacity` other appends returned after this append began (C09)
@@ -1455,7 +1460,8 @@ pub fn gen_c04_safety(rng: &mut Rng, _tier: Tier) -> Value {
         "main_ops": main_ops,
         "pre_end": [{"op":"gate_open"}],
         "end": "drop",
-        "end_before_join": false,
+        // a quarter of the runs: the join handle is dropped while flush requests are still pending
+        "end_before_join": rng.chance(0.25),
         "post": if rng.chance(0.5) { json!([{"op":"flush","mode":"await"}, {"op":"append","n":1}, {"op":"flush","mode":"await"}]) } else { json!([]) },
         "sustained": sustained,
     })
@@ -1506,6 +1512,8 @@ pub fn gen_c04_liveness(rng: &mut Rng, _tier: Tier) -> Value {
         "next_cost_ns": next_cost,
         "gate": -1,
         "script": [],
+        // a fifth of the runs: the stream rejects every single entry (progress must not depend on success)
+        "fail_all": if rng.chance(0.2) { json!(*rng.pick(&["V", "I"])) } else { Value::Null },
         "report_res": "O",
         "flush_fail": [],
         "producers": producers,
